@@ -12,7 +12,12 @@ import (
 	"github.com/polynetwork/poly/common/log"
 	"github.com/polynetwork/poly/consensus/vbft"
 	vconfig "github.com/polynetwork/poly/consensus/vbft/config"
+	cstates "github.com/polynetwork/poly/core/states"
+	scommon "github.com/polynetwork/poly/core/store/common"
+	"github.com/polynetwork/poly/core/store/overlaydb"
 	"github.com/polynetwork/poly/core/types"
+	"github.com/polynetwork/poly/native/service/governance/node_manager"
+	nutils "github.com/polynetwork/poly/native/service/utils"
 	"polyverif/internal/hx"
 )
 
@@ -211,6 +216,70 @@ func (f *vbftsel) Exec(r *hx.Run, op []string) string {
 			}
 		}
 		return out
+	case "peerscfg":
+		if len(op) != 3 {
+			return "bad-op"
+		}
+		view := uint32(atoi(op[1]))
+		pm := &node_manager.PeerPoolMap{PeerPoolMap: map[string]*node_manager.PeerPoolItem{}}
+		for _, t := range splitList(op[2]) {
+			f := strings.Split(t, ":")
+			if len(f) != 3 {
+				return "bad-op"
+			}
+			if _, dup := pm.PeerPoolMap[f[1]]; dup {
+				return "bad-op" // the pool is a map keyed by public key
+			}
+			pm.PeerPoolMap[f[1]] = &node_manager.PeerPoolItem{Index: uint32(atoi(f[0])), PeerPubkey: f[1], Status: node_manager.Status(atoi(f[2]))}
+		}
+		memdb := overlaydb.NewMemDB(1024, 16)
+		put := func(key []byte, ser func(sink *common.ZeroCopySink)) {
+			sink := common.NewZeroCopySink(nil)
+			ser(sink)
+			raw := append([]byte{byte(scommon.ST_STORAGE)}, nutils.NodeManagerContractAddress[:]...)
+			memdb.Put(append(raw, key...), cstates.GenRawStorageItem(sink.Bytes()))
+		}
+		gv := &node_manager.GovernanceView{View: view}
+		put([]byte(node_manager.GOVERNANCE_VIEW), gv.Serialization)
+		put(append([]byte(node_manager.PEER_POOL), nutils.GetUint32Bytes(view)...), pm.Serialization)
+		canon := func(ps []*config.VBFTPeerInfo) string {
+			l := append([]*config.VBFTPeerInfo{}, ps...)
+			sort.SliceStable(l, func(a, b int) bool {
+				if l[a].Index != l[b].Index {
+					return l[a].Index < l[b].Index
+				}
+				return l[a].PeerPubkey < l[b].PeerPubkey
+			})
+			var out []string
+			for _, p := range l {
+				out = append(out, fmt.Sprintf("%d:%s", p.Index, p.PeerPubkey))
+			}
+			if len(out) == 0 {
+				return "-"
+			}
+			return strings.Join(out, ",")
+		}
+		first := ""
+		orders := map[string]bool{}
+		for i := 0; i < 12; i++ {
+			ps, err := vbft.GetPeersConfig(memdb)
+			if err != nil {
+				return "err"
+			}
+			var o []string
+			for _, p := range ps {
+				o = append(o, fmt.Sprint(p.Index))
+			}
+			orders[strings.Join(o, ",")] = true
+			c := canon(ps)
+			if i == 0 {
+				first = c
+			} else if c != first {
+				r.Viol("C40:peers-config-set-depends-on-map-order", fmt.Sprintf("GetPeersConfig returned different peer sets on the same pool: %s vs %s", first, c))
+			}
+		}
+		r.Hist(fmt.Sprintf("peerscfg.distinct-orders-in-12-calls=%d", len(orders)))
+		return first
 	case "genesis":
 		if len(op) != 3 {
 			return "bad-op"
@@ -508,6 +577,15 @@ func (f *vbftsel) Gen(r *hx.Run) {
 		}
 		r.Do(fmt.Sprintf("genesis %d %s", height, strings.Join(p2, ",")))
 		r.Nontrivial(fmt.Sprintf("genesis/k%d", k))
+		// the same kind of pool as the governance contract stores it: GetPeersConfig filters by status and hands it
+		// over in map order
+		if i%4 == 0 {
+			var items []string
+			for j := 0; j < k; j++ {
+				items = append(items, fmt.Sprintf("%d:%s:%d", j+1, pubkeyLike(r), r.Rng.Intn(4)))
+			}
+			r.Do(fmt.Sprintf("peerscfg %d %s", r.Rng.Intn(100), strings.Join(items, ",")))
+		}
 	}
 	_ = sort.Ints
 }
